@@ -64,7 +64,7 @@ func auditProblems(wd string, exp *ref.Result, ti *mon.TraceIndex) (ps []mon.Pro
 func c10(args []string) {
 	c := chk.New("C10", "exploration", args)
 	c.Build(false)
-	c.Rule("generated graphs with multi-input / multi-output tasks, parameters, MapToTags components (tags consumed downstream in commands and default output names), StreamToSubStream + joined in-ports, fan-in / fan-out, Prepend, depth <= 6; oracle: every finalized output has a parsable <path>.audit.json equal to the reference lineage tree in ProcessName, Command, Params, Tags, OutFiles and Upstream key set, recursively down to the source files (empty records), timing sane (start <= finish, duration >= 0, start non-zero); the recorded command equals the argv the command itself logged. distinct_nontrivial = distinct (graph shape, config) with >= 3 audit records of depth >= 2")
+	c.Rule("generated graphs with multi-input / multi-output tasks, parameters, MapToTags components (tags consumed downstream in commands and default output names), StreamToSubStream + joined in-ports, fan-in / fan-out, Prepend, depth <= 6; oracle: every finalized output has a parsable <path>.audit.json equal to the reference lineage tree in ProcessName, Command, Params, Tags, OutFiles and Upstream key set, recursively down to the source files (empty records), timing sane (start <= finish, duration >= 0, start non-zero); the recorded command equals the argv the command itself logged; parameter ports that exist only through InParam(name) (value used in the SetOut pattern, not in the command) belong to the record too. distinct_nontrivial = distinct (graph shape, config) with >= 3 audit records of depth >= 2")
 	c.Assume("ids and absolute times are not compared", "MapToTags is only placed on streams it consumes alone (the component mutates the record it shares with the producer; with sibling consumers that is the C12 race)")
 	rng := c.Rand("c10")
 	type job struct {
